@@ -67,9 +67,11 @@ func (c *Ctx) BuildQuery(o *Obligation, produceModels bool) (string, int) {
 	for _, s := range c.symbolsOf(o.Goal.S) {
 		add(s)
 	}
-	for _, w := range o.Witness {
-		for _, s := range c.symbolsOf(w.S) {
-			add(s)
+	if produceModels {
+		for _, w := range o.Witness {
+			for _, s := range c.symbolsOf(w.S) {
+				add(s)
+			}
 		}
 	}
 	included := make([]bool, len(c.asserts))
@@ -282,7 +284,13 @@ func Solve(o *Obligation, scratch string, quickCap, fullCap int, crossCheck bool
 		return
 	}
 	c := o.Unit
-	q, nh := c.BuildQuery(o, true)
+	defer func() {
+		// a counterexample was found: ask again with the witness terms (function inputs) to get their model values
+		if o.Status == "sat" && !o.ExpectFail && len(o.Witness) > 0 {
+			extractModel(o, scratch, fullCap)
+		}
+	}()
+	q, nh := c.BuildQuery(o, false)
 	o.Size = len(q)
 	o.NHyp = nh
 	file := filepath.Join(scratch, sanitize(o.Name)+".smt2")
@@ -401,6 +409,7 @@ func parseModel(out string) map[string]string {
 	// strip outer parens
 	depth := 0
 	start := -1
+	npairs := 0
 	for k := 0; k < len(s); k++ {
 		switch s[k] {
 		case '(':
@@ -416,6 +425,8 @@ func parseModel(out string) map[string]string {
 				term := strings.TrimSpace(pair[:j])
 				val := strings.TrimSpace(pair[j:])
 				m[term] = val
+				m[fmt.Sprintf("#%d", npairs)] = val // positional: the k-th witness term
+				npairs++
 				start = -1
 			}
 			depth--
